@@ -8,8 +8,17 @@ RULE = ("C03: the verdict of every run of the real runtime is judged twice: agai
 
 
 def run(tier):
-    res = run_prog_check("C03", PROPS, tier, ["c03", "objects:C03", "sync2:C03"], n_quick=4000, n_thorough=80000, rule=RULE, scenarios=(2500, 40000), focus=["park", "condvar", "barrier", "mutex", "rwlock", "sem", "atomic", "chan"], focus_n=(2000, 40000))
+    res = run_prog_check("C03", PROPS, tier, ["c03", "objects:C03", "sync2:C03"], n_quick=4000, n_thorough=80000, rule=RULE, scenarios=(2500, 40000), focus=["park", "condvar", "barrier", "mutex", "rwlock", "sem", "atomic", "chan"], focus_n=(2000, 40000), exhaustive=["condvar", "park", "chan", "sem", "mutex"], exh_n=(50, 500))
     if isinstance(res, int):
         return res
     ctx, cases, mo, io = res
+    # directed scenarios the program language cannot express: a JoinHandle polled by one task and awaited by another
+    # (a false deadlock when the completion wakes the wrong task)
+    probes = ["probe jhmove 0"]
+    po = ctx.run_impl("prog", probes)
+    ctx.evaluations += len(probes)
+    for c, o in zip(probes, po):
+        if not o.startswith("PROBE OK"):
+            ctx.violation({"layer": "prog", "cases": [c], "implementation_answer": o,
+                           "why": "deadlock reported on a program that terminates under every schedule: a JoinHandle polled by one task and then awaited by another is never resolved"})
     return ctx.finish()
